@@ -40,8 +40,9 @@ T = {
  "C10-b": dict(property="C10",
    what="OutboundPayments::fail_htlc attaches the ReleasePaymentComplete completion action to PaymentPathFailed instead of the terminal PaymentFailed",
    needs="an outbound HTLC failed ON CHAIN on a closed channel, the user's handler answering ReplayEvent for PaymentFailed, a crash before the manager is written again",
-   checks={"tools/rehearse.sh seedrun C10 seeded/C10-b/patch.diff quick": "exit 0 -- MISSED: the owed-event obligation is dropped when the restart uses a manager written before the refusal, and the end-to-end payment guards exempt restarted payers (see DESIGN.md 11.6)"},
-   detected=[]),
+   checks={"tools/rehearse.sh seedrun C10 seeded/C10-b/patch.diff quick (first version)": "exit 0 -- MISSED (no chain, no refusing user)",
+           "tools/trial.sh seedrun4 seeded/C10-b/patch.diff <chainsettle scripts with the settle-then-crash variant>": "rejected at `fin` (run 8: a payer restarted from a manager that knows the payment never reports its terminal event: PaymentFailed had been refused, PaymentPathFailed's completion action told the monitor the payment was complete); same scripts accepted on the unchanged tree"},
+   detected=["C10 (after strengthening)"]),
  "C10-c": dict(property="C10",
    what="ChannelManager::from_channel_manager_data: the stale-manager force-close path no longer fails back ShutdownResult::dropped_outbound_htlcs (HTLCs that sat in the closed channel's holding cell)",
    needs="a forward waiting in the outbound channel's holding cell when the manager is written, a later monitor update on that channel that does not free the holding cell, a crash",
